@@ -178,7 +178,7 @@ theorem copyInstWith_bspec {cs : List ClassDesc} {h0 : Heap} (W : WorldOK2 cs h0
           have C := construct_ok (b := h0.length) W.wf ((e.trans ea).trans ed) ok B2 (by omega) sp
             (.ref ha.length) N2 Nsub
           have CK := construct_keys cd h2 sp (.ref ha.length)
-          have CS := construct_lookup_submodels cd h2 sp (.ref ha.length) hl
+          have CS := construct_lookup_submodels cd h2 sp ha.length hl
           generalize construct cd h2 sp (.ref ha.length) = r3 at hc C CK CS
           obtain ⟨h3, init⟩ := r3
           simp only at hc CK CS
@@ -312,7 +312,7 @@ theorem deepcopy_bspec {cs : List ClassDesc} {h0 : Heap} (W : WorldOK2 cs h0) :
                 rcases List.mem_cons.mp hmem with h2 | h2
                 · cases h2; exact E
                 · exact (Q.mono (ea.trans (Ext.append _ _))) a c h2
-          | list | array | dict | trace | cls =>
+          | list | array | dict | tuple | trace | cls =>
             simp only [hk] at hc
             cases hcs : copySlotsWith (deepcopy cs n) h m o.slots with
             | none => simp [hcs] at hc
